@@ -84,15 +84,24 @@ def parseCat? (s : String) : Option Cat :=
       some ⟨f, lo, hi⟩
   | _ => none
 
-/-- `-` (unfitted) or `mFeatures:f0,f1,…:c0;c1;…` -/
+def parseCats? (cs : String) : Option (List Cat) :=
+  if cs = "" then some [] else (cs.splitOn ";").mapM parseCat?
+
+/-- `-` (unfitted) or `mFeatures:f0,f1,…:c0;c1;…[:cats of term 0|cats of term 1|…]` -/
 def parseFit? (s : String) : Option (Option Fit) :=
   if s = "-" then some none
   else match s.splitOn ":" with
     | [m, fs, cs] => do
         let m ← m.toNat?
         let fs ← parseNatList? fs
-        let cs ← if cs = "" then some [] else (cs.splitOn ";").mapM parseCat?
-        some (some ⟨m, fs, cs⟩)
+        let cs ← parseCats? cs
+        some (some ⟨m, fs, cs, []⟩)
+    | [m, fs, cs, tcs] => do
+        let m ← m.toNat?
+        let fs ← parseNatList? fs
+        let cs ← parseCats? cs
+        let tcs ← (tcs.splitOn "|").mapM parseCats?
+        some (some ⟨m, fs, cs, tcs⟩)
     | _ => none
 
 def showOutcome : Outcome → String
@@ -108,6 +117,7 @@ def showStep : Step → String
   | .yDomain _ => "yDomain"
   | .xFresh => "xFresh"
   | .xFitted => "xFitted"
+  | .xFittedTerm => "xFittedTerm"
   | .sampleAtXFitted => "sampleAtXFitted"
   | .compile => "compile"
   | .lenXY => "lenXY"
@@ -128,7 +138,8 @@ def stripKey? (key : String) (s : String) : Option String :=
 
 /-- operations of the C11 model driver (`C11 <op> <args…>`); `none` ↦ `bad-op` -/
 def handle : List String → Option String
-  | ["call", e, link, levels, tf, validated, fit, x, y, w, ex, sx, conv, coef] => do
+  | ["call", e, link, levels, tf, validated, fit, x, y, w, ex, sx, conv, coef, term] => do
+      let term ← (stripKey? "term" term) >>= String.toNat?
       let e ← parseEntry? e
       let link ← parseLink? link
       let levels ← parseRat? levels
@@ -144,8 +155,13 @@ def handle : List String → Option String
       let coef ← (stripKey? "coef" coef) >>= parseBool?
       let m : Model := ⟨link, levels, tf, validated, fit⟩
       let a : Args := { X := X, y := y, weights := w, exposure := ex, sampleAtX := sx,
-                        converged := conv, coefOnly := coef }
+                        converged := conv, coefOnly := coef, term := term }
       some (showOutcome (outcome e m a) ++ " " ++ firstFail m a (table e m.isFitted a.converged))
+  | ["args", e] => do
+      let e ← parseEntry? e
+      let nm : DataArg → String
+        | .X => "X" | .y => "y" | .weights => "weights" | .exposure => "exposure" | .sampleAtX => "sample_at_X"
+      some (joinWith "," (e.args.map nm) ++ " needsFit=" ++ (if e.needsFit then "1" else "0"))
   | ["isnan", link, levels, v] => do
       let link ← parseLink? link; let levels ← parseRat? levels; let v ← parseVal? v
       some (if linkIsNaN link levels v then "1" else "0")
